@@ -68,6 +68,10 @@ class Clock:
         await fut
 
     # ---- director side -----------------------------------------------------------------------
+    def purge(self):
+        """drop the timers of sleepers that were cancelled (what Task.cancel() does to asyncio.sleep's timer)"""
+        self.sleepers = [s for s in self.sleepers if not s[2].done()]
+
     def has_due(self):
         for sl in self.sleepers:
             if sl[0] <= self.now:
@@ -97,10 +101,19 @@ class Clock:
 
 
 class _AsyncioShim:
-    """Only what RateLimiter uses; anything else is an AttributeError (the source changed: inconclusive)."""
+    """asyncio as the module under test sees it: sleep is the virtual timer; names that read or depend on the event
+    loop's own clock are refused (AttributeError: the source changed, the run is inconclusive); everything else
+    (CancelledError, Event, Lock, ...) is the real asyncio."""
+    _CLOCKED = ('wait_for', 'timeout', 'timeout_at', 'wait', 'get_event_loop', 'get_running_loop', 'new_event_loop',
+                'sleep_until', 'run')
 
     def __init__(self, clock):
         self.sleep = clock.sleep
+
+    def __getattr__(self, name):
+        if name in self._CLOCKED or name.startswith('_'):
+            raise AttributeError(name)
+        return getattr(asyncio, name)
 
 
 class _TimeShim:
@@ -108,18 +121,43 @@ class _TimeShim:
         self.time = clock.time
 
 
-async def scenario(count, window, dts, enters, orders, trace=None, stats=None):
+class BodyError(Exception):
+    pass
+
+
+async def scenario(count, window, dts, acts, orders, drains=None, raises=None, hold=False, trace=None, stats=None):
+    """acts[s]: 0 nothing, 1 a new entry arrives, 2+2i let entry i leave its body (normally, or by raising when raises[i]),
+    3+2i cancel entry task i.  hold=False: bodies end at once (every gate is open from the start) and only 0/1 are used."""
     stats = {} if stats is None else stats
-    stats.update({'complete': False, 'slept': 0, 'admitted': 0})
+    stats.update({'complete': False, 'slept': 0, 'admitted': 0, 'cancels': 0, 'leaves': 0})
+    k = len(dts)
     clock = Clock(count, window)
     rl_mod.time = _TimeShim(clock)
     rl_mod.asyncio = _AsyncioShim(clock)
     limiter = rl_mod.RateLimiter(rl_mod.RateLimit(count, window))
     tasks = []
+    gates = [asyncio.Event() for _ in range(k)]
+    admitted = [False] * k
+    started = [False] * k
+    told = [False] * k         # the director opened entry i's gate
+    cancelled = [False] * k    # the director cancelled entry task i
+    closing = [False]
+    if not hold:
+        for g in gates:
+            g.set()
 
-    async def entry():
-        async with limiter:
-            clock.adm.append(clock.now)
+    async def entry(i):
+        started[i] = True
+        try:
+            async with limiter:
+                # the admission instant: __aenter__ has returned, whatever happens to this entry afterwards
+                clock.adm.append(clock.now)
+                admitted[i] = True
+                await gates[i].wait()
+                if hold and not closing[0] and raises[i]:
+                    raise BodyError()
+        except BodyError:
+            pass
 
     def collect():
         for t in tasks:
@@ -132,29 +170,62 @@ async def scenario(count, window, dts, enters, orders, trace=None, stats=None):
             raise Bad(clock.bad)
         clock.check_rate()
 
+    def act(a):
+        if a == 1:
+            tasks.append(asyncio.ensure_future(entry(len(tasks))))
+            return 'arrive'
+        i = (a - 2) // 2
+        if i >= len(tasks):
+            raise sched.Prune()
+        if (a - 2) % 2 == 0:
+            # open the gate: an entry inside its body leaves now, one still waiting leaves as soon as it is admitted
+            if told[i] or cancelled[i] or tasks[i].done():
+                raise sched.Prune()
+            told[i] = True
+            gates[i].set()
+            stats['leaves'] += 1
+            return f'leave{i}'
+        if cancelled[i] or tasks[i].done():
+            raise sched.Prune()
+        cancelled[i] = True
+        stats['cancels'] += 1
+        what = f'cancel{i}:' + ('in-body' if admitted[i] else 'waiting' if started[i] else 'not-run-yet')
+        tasks[i].cancel()
+        return what
+
     try:
-        for s in range(len(dts)):
+        for s in range(k):
             clock.now = clock.now + dts[s]
+            clock.purge()
             due = clock.has_due()
+            a = sched.concretize(acts[s], 0, 1 + 2 * s) if hold else (1 if acts[s] else 0)
             first = False
-            if enters[s]:
-                # the order bit is only looked at when it matters (an arrival and a wake-up at the same instant)
+            what = ''
+            if a:
+                # the order bit is only looked at when it matters (an action and a wake-up at the same instant)
                 first = due and bool(orders[s])
                 if first:
-                    tasks.append(asyncio.ensure_future(entry()))
+                    what = act(a) + '(first)'
             if due:
                 clock.wake_due()
-            if enters[s] and not first:
-                tasks.append(asyncio.ensure_future(entry()))
-            await sched.settle()
-            collect()
+            if a and not first:
+                what = act(a)
+            # an arrival may be left un-run until the next step (it then first runs at the next step's instant, or is
+            # cancelled before it ever ran); every other step is drained to quiescence
+            lazy = hold and a == 1 and s + 1 < k and not drains[s]
+            if not lazy:
+                await sched.settle()
             if trace is not None:
-                trace.append((int(clock.now), bool(enters[s]), 'arrival-first' if first else '', [int(a) for a in clock.adm],
-                              [int(x[0]) for x in clock.sleepers]))
+                trace.append((int(clock.now), what + ('(not run yet)' if lazy else ''), [int(x) for x in clock.adm],
+                              [int(x[0]) for x in clock.sleepers if not x[2].done()]))
+            if not lazy:
+                collect()
         stats['complete'] = True
         await sched.settle()
         collect()
+        # live: no more arrivals, nobody leaves a body, the clock goes from deadline to deadline
         for _ in range(2 * len(tasks) + 2):
+            clock.purge()
             if not clock.sleepers:
                 break
             nxt = clock.sleepers[0][0]
@@ -167,13 +238,24 @@ async def scenario(count, window, dts, enters, orders, trace=None, stats=None):
             await sched.settle()
             collect()
             if trace is not None:
-                trace.append((int(clock.now), 'final', True, [int(a) for a in clock.adm], [int(x[0]) for x in clock.sleepers]))
+                trace.append((int(clock.now), 'final', [int(x) for x in clock.adm], [int(x[0]) for x in clock.sleepers if not x[2].done()]))
+        nadm = 0
+        for i in range(len(tasks)):
+            if admitted[i]:
+                nadm += 1
+            elif not cancelled[i]:
+                raise Bad('live: an entry is still not admitted after the clock passed every deadline')
+        if len(clock.adm) != nadm:
+            raise Bad('live: number of admissions differs from number of admitted entries')
+        clock.check_rate()
+        closing[0] = True
+        for g in gates:
+            g.set()
+        await sched.settle()
+        collect()
         for t in tasks:
             if not t.done():
-                raise Bad('live: an entry is still not admitted after the clock passed every deadline')
-        if len(clock.adm) != len(tasks):
-            raise Bad('live: number of admissions differs from number of entries')
-        clock.check_rate()
+                raise Bad('live: an entry never finished although it was admitted and its body ended')
         stats['slept'] = clock.slept
         stats['admitted'] = len(clock.adm)
         return stats
@@ -183,16 +265,32 @@ async def scenario(count, window, dts, enters, orders, trace=None, stats=None):
 
 
 def split(k, args):
-    """positional layout: count, window, dt0..dt_{k-1}, enter1..enter_{k-1}, order1..order_{k-1}"""
+    """positional layout (bodies end at once): count, window, dt0..dt_{k-1}, enter1..enter_{k-1}, order1..order_{k-1}"""
     return (args[0], args[1], list(args[2:2 + k]), [True] + list(args[2 + k:1 + 2 * k]),
             [False] + list(args[1 + 2 * k:3 * k]))
 
 
-def _mk(k):
-    def check(*args):
+def split_h(k, args):
+    """positional layout (held bodies): count, window, dt0..dt_{k-1}, a1..a_{k-1}, o1..o_{k-1}, g0..g_{k-2}, r0..r_{k-2}"""
+    return (args[0], args[1], list(args[2:2 + k]), [1] + list(args[2 + k:1 + 2 * k]),
+            [False] + list(args[1 + 2 * k:3 * k]), list(args[3 * k:4 * k - 1]) + [True],
+            list(args[4 * k - 1:5 * k - 2]) + [False])
+
+
+def _mk(k, hold=False):
+    def run(args, trace=None, st=None, runner=None):
+        runner = runner or sched.run_det
+        if hold:
+            count, window, dts, acts, orders, drains, raises = split_h(k, args)
+            return runner(scenario(count, window, dts, acts, orders, drains, raises, True, trace, st))
         count, window, dts, enters, orders = split(k, args)
+        return runner(scenario(count, window, dts, enters, orders, None, None, False, trace, st))
+
+    def check(*args):
         try:
-            sched.run_det(scenario(count, window, dts, enters, orders))
+            run(args)
+        except sched.Prune:
+            return True
         except Bad:
             return False
         except AssertionError:
@@ -200,39 +298,54 @@ def _mk(k):
         return True
 
     def reach(*args):
-        """Twin: False iff the schedule ran to the end and some entry really had to sleep."""
-        count, window, dts, enters, orders = split(k, args)
+        """Twin: False iff a well-formed schedule ran to the end and some entry really had to sleep (held bodies: or
+        some entry task was cancelled)."""
         st = {}
         try:
-            sched.run_det(scenario(count, window, dts, enters, orders, None, st))
+            run(args, None, st)
+        except sched.Prune:
+            return True
         except Bad:
             pass
         except AssertionError:
             pass
-        return not (st.get('complete') and st.get('slept', 0) > 0)
+        return not (st.get('complete') and (st.get('slept', 0) > 0 or st.get('cancels', 0) > 0))
 
-    return check, reach
+    return check, reach, run
 
 
-check_3, reach_3 = _mk(3)
-check_4, reach_4 = _mk(4)
-check_5, reach_5 = _mk(5)
-check_6, reach_6 = _mk(6)
-check_7, reach_7 = _mk(7)
+check_3, reach_3, _run_3 = _mk(3)
+check_4, reach_4, _run_4 = _mk(4)
+check_5, reach_5, _run_5 = _mk(5)
+check_6, reach_6, _run_6 = _mk(6)
+check_7, reach_7, _run_7 = _mk(7)
+check_h3, reach_h3, _run_h3 = _mk(3, True)
+check_h4, reach_h4, _run_h4 = _mk(4, True)
+check_h5, reach_h5, _run_h5 = _mk(5, True)
+check_h6, reach_h6, _run_h6 = _mk(6, True)
+
+
+def positional(args, meta):
+    k = meta['k']
+    pos = ([args['count'], args['window']] + [args[f'dt{i}'] for i in range(k)]
+           + [args[f'{"a" if meta.get("hold") else "e"}{i}'] for i in range(1, k)] + [args[f'o{i}'] for i in range(1, k)])
+    if meta.get('hold'):
+        pos += [args[f'g{i}'] for i in range(k - 1)] + [args[f'r{i}'] for i in range(k - 1)]
+    return pos
 
 
 def replay(args, meta):
     """Plain asyncio (stock loop), no CrossHair.  -> (ok, class, why)"""
     k = meta['k']
-    pos = ([args['count'], args['window']] + [args[f'dt{i}'] for i in range(k)] + [args[f'e{i}'] for i in range(1, k)]
-           + [args[f'o{i}'] for i in range(1, k)])
-    count, window, dts, enters, orders = split(k, pos)
+    run = globals()[f'_run_{"h" if meta.get("hold") else ""}{k}']
     trace = []
     try:
-        sched.run_plain(scenario(count, window, dts, enters, orders, trace))
+        run(positional(args, meta), trace, None, sched.run_plain)
+    except sched.Prune:
+        return True, None, 'schedule not well-formed'
     except Bad as e:
         why = str(e)
-        return False, 'rate-limiter-' + why.split(':')[0], f'{why}; trace(now, arrival, order, admitted, sleeper deadlines)={trace}'
+        return False, 'rate-limiter-' + why.split(':')[0], f'{why}; trace(now, action, admitted, sleeper deadlines)={trace}'
     except AssertionError as e:
         return False, 'rate-limiter-livelock', f'{e}; trace={trace}'
     return True, None, 'held'
